@@ -242,6 +242,28 @@ func check(c Case) error {
 			}
 			return nil
 		}},
+		// an existing target whose content resembles the new output: identical, differing only in
+		// letter case, a prefix of it, or the output followed by more bytes
+		{"existing target: same bytes", func() string {
+			p := filepath.Join(dir, "same.go")
+			_ = os.WriteFile(p, refBuf.Bytes(), 0o644)
+			return p
+		}, similar(valid, refBuf.Bytes())},
+		{"existing target: differs in letter case only", func() string {
+			p := filepath.Join(dir, "case.go")
+			_ = os.WriteFile(p, swapCase(refBuf.Bytes()), 0o644)
+			return p
+		}, similar(valid, refBuf.Bytes())},
+		{"existing target: a prefix of the output", func() string {
+			p := filepath.Join(dir, "prefix.go")
+			_ = os.WriteFile(p, refBuf.Bytes()[:refBuf.Len()/2], 0o644)
+			return p
+		}, similar(valid, refBuf.Bytes())},
+		{"existing target: the output plus trailing bytes", func() string {
+			p := filepath.Join(dir, "longer.go")
+			_ = os.WriteFile(p, append(append([]byte{}, refBuf.Bytes()...), "\n// stale tail that must disappear\n"...), 0o644)
+			return p
+		}, similar(valid, refBuf.Bytes())},
 		{"parent directory missing", func() string { return filepath.Join(dir, "missing", "x.go") }, func(p string, err error) error {
 			if err == nil {
 				return fmt.Errorf("Save into a missing directory returned nil")
@@ -307,6 +329,37 @@ func check(c Case) error {
 	return nil
 }
 
+// similar returns the post-condition for a Save onto a target that resembles the output.
+func similar(valid bool, want []byte) func(p string, err error) error {
+	return func(p string, err error) error {
+		if !valid {
+			return nil // covered by "existing target"
+		}
+		if err != nil {
+			return fmt.Errorf("Save failed: %v", firstLine(err))
+		}
+		got, rerr := os.ReadFile(p)
+		if rerr != nil || !bytes.Equal(got, want) {
+			return fmt.Errorf("Save reported success but the file holds %q, Render produces %q", got, want)
+		}
+		return nil
+	}
+}
+
+func swapCase(b []byte) []byte {
+	out := make([]byte, len(b))
+	for i, c := range b {
+		switch {
+		case c >= 'a' && c <= 'z':
+			c -= 32
+		case c >= 'A' && c <= 'Z':
+			c += 32
+		}
+		out[i] = c
+	}
+	return out
+}
+
 func firstLine(err error) string {
 	s := err.Error()
 	if i := strings.IndexByte(s, '\n'); i >= 0 {
@@ -321,7 +374,7 @@ func firstLine(err error) string {
 func TestC10(t *testing.T) {
 	r := hx.Start(t, "C10")
 	defer r.Finish(t)
-	r.Rule("fault enumeration x generated trees: for every generated tree (plausible valid programs and random, mostly invalid, DSL trees) the complete matrix {File.Render, Statement.Render, Statement.RenderWithFile, Group.Render, Group.RenderWithFile} x {healthy writer, error on the 1st / 2nd / 3rd Write, short write + error, every Write fails} and File.Save x {fresh target, existing target with known content and mtime, missing parent directory, path component is a regular file, target is a directory, /dev/full, name too long} is executed; the matrix with per-cell counts is in the evidence; non-trivial = every tree (each meets every cell); distinct by tree")
+	r.Rule("fault enumeration x generated trees: for every generated tree (plausible valid programs and random, mostly invalid, DSL trees) the complete matrix {File.Render, Statement.Render, Statement.RenderWithFile, Group.Render, Group.RenderWithFile} x {healthy writer, error on the 1st / 2nd / 3rd Write, short write + error, every Write fails} and File.Save x {fresh target, existing target with known content and mtime, existing targets resembling the output (same bytes, other letter case, a prefix, output plus trailing bytes), missing parent directory, path component is a regular file, target is a directory, /dev/full, name too long} is executed; the matrix with per-cell counts is in the evidence; non-trivial = every tree (each meets every cell); distinct by tree")
 	r.Assume("the process runs as root, so permission faults are not used; a Write that returns n < len(p) without an error violates io.Writer's contract and is not injected; whether a returned error wraps the injected cause is recorded, not asserted")
 	valid, invalid := 0, 0
 	note := func(c Case) {
